@@ -99,15 +99,15 @@ def gen_cases(ck, limit):
             fseq = faulty_seq(rng, tags, fcid, fault, place, limit)
             hseq, fseq = hseq[:4], fseq
             merges = list(sg.interleavings([hseq, fseq]))
-            if len(merges) > (12 if quick else 400):
-                merges = rng.sample(merges, 12 if quick else 400)
+            if len(merges) > (30 if quick else 400):
+                merges = rng.sample(merges, 30 if quick else 400)
             if fault == "oversize":
                 merges = merges[:3 if quick else 20]
             for m in merges:
                 add(sg.with_polls(m, (1 << len(m)) - 1), [fcid], [1 - fcid], "one_fault_all_interleavings",
                     {"fault": fault, "place": place})
     # (b) random: one or two faulty clients among 1..3 healthy ones, streams allowed, random polls
-    for i in range(260 if quick else 8000):
+    for i in range(800 if quick else 8000):
         nh = rng.randrange(1, 4)
         nf = rng.choice([1, 1, 2])
         ids = list(range(nh + nf))
@@ -127,6 +127,24 @@ def gen_cases(ck, limit):
         m = sg.random_merge(rng, seqs)
         mask = rng.choice([(1 << len(m)) - 1, 0, rng.getrandbits(len(m)), rng.getrandbits(len(m))])
         add(sg.with_polls(m, mask), fids, hids, "random_%d_faults" % nf, {"faults": faults})
+    # (c) the listener fails at some moment (the only legitimate end of the loop): model correspondence of
+    #     the exit path (everything is dropped, streams before connections), no pairwise comparison
+    for i in range(80 if quick else 1500):
+        nh = rng.randrange(1, 4)
+        tags = sg.Tags()
+        seqs = []
+        for h in range(nh):
+            s_, sevs = healthy_seq(rng, tags, h, rng.random() < 0.6)
+            seqs.append(s_)
+            if sevs:
+                seqs.append(sevs[:rng.randrange(0, len(sevs) + 1)])
+        m = sg.random_merge(rng, seqs)
+        m.insert(rng.randrange(1, len(m) + 1), ["lf"])
+        if rng.random() < 0.3:
+            m.append(["n", nh])
+        mask = rng.choice([(1 << len(m)) - 1, rng.getrandbits(len(m)), rng.getrandbits(len(m))])
+        cases.append({"script": sg.with_polls(m, mask) + [["p"]], "hyp": [], "faulty": [], "healthy": [],
+                      "lf": True, "tag": "listener_fail", "info": {"fault": "listener_fail"}})
     return cases
 
 
@@ -152,6 +170,11 @@ def main():
         healthy, faulty = c.get("healthy", []), c.get("faulty", [])
         drops = sg.dropped(r)
         msg = None
+        if c.get("lf"):
+            if any(e[0] == "lf" for e in c["script"]) and not r["exited"] and \
+                    any(e[0] == "p" for e in c["script"][[e[0] for e in c["script"]].index("lf"):]):
+                msg = "the listener failed but the server future did not complete"
+            return msg, detail
         if r["exited"]:
             msg = "the server future completed although the listener never failed"
         elif any(h in drops for h in healthy):
